@@ -55,6 +55,11 @@ def lem_pairs(r):
     return sorted([k if k is not None else '~', sorted(v)] for k, v in r.items())
 
 
+def raw(i):
+    """'lexicon|id' -> id"""
+    return i.split('|', 1)[1] if '|' in i else i
+
+
 def handle_search(job):
     import unicodedata
     out = []
@@ -71,13 +76,13 @@ def handle_search(job):
                 wid, _, pos, lemma, forms, senses = w
                 for sid, ssid in senses:
                     syn[ssid] = None
-                lex['entries'].append({'id': wid, 'meta': None,
+                lex['entries'].append({'id': raw(wid), 'meta': None,
                                        'lemma': {'writtenForm': lemma, 'partOfSpeech': pos},
                                        'forms': [{'writtenForm': f} for f in forms],
-                                       'senses': [{'id': sid, 'synset': ssid, 'meta': None}
+                                       'senses': [{'id': raw(sid), 'synset': raw(ssid), 'meta': None}
                                                   for sid, ssid in senses]})
             sp = dict(map(tuple, case['synpos']))
-            lex['synsets'] = [{'id': ssid, 'ili': '', 'partOfSpeech': sp[ssid], 'meta': None}
+            lex['synsets'] = [{'id': raw(ssid), 'ili': '', 'partOfSpeech': sp[ssid], 'meta': None}
                               for ssid in syn]
             lexs.append(lex)
         p = base_dir() / 'search.xml'
@@ -86,7 +91,7 @@ def handle_search(job):
         if case.get('extforms'):
             x = lmfgen.mini_lexicon('X', '1')
             x['extends'] = {'id': 'L', 'version': '1'}
-            x['entries'] = [{'id': wid, 'external': True,
+            x['entries'] = [{'id': raw(wid), 'external': True,
                              'forms': [{'writtenForm': f} for f in fs]}
                             for wid, fs in sorted(case['extforms'].items()) if fs]
             x['synsets'] = []
@@ -113,7 +118,7 @@ def handle_search(job):
                     try:
                         res = getattr(w, kind)(form, pos=pa)
                         o['calls'].append([kind, form, pos, norm_on, saf, lemkind, cands,
-                                           'ok', [x.id for x in res]])
+                                           'ok', [f'{x.lexicon().id}|{x.id}' for x in res]])
                     except JobTimeout:
                         raise
                     except Exception as e:
@@ -125,7 +130,7 @@ def handle_search(job):
                         try:
                             res = getattr(wn, kind)(form, pos=pa, lexicon=scope)
                             o['calls'].append([kind, form, pos, norm_on, saf, lemkind, cands,
-                                               'ok', [x.id for x in res]])
+                                               'ok', [f'{x.lexicon().id}|{x.id}' for x in res]])
                         except JobTimeout:
                             raise
                         except Exception as e:
@@ -139,7 +144,8 @@ def handle_search(job):
         if case.get('extforms') and 'X' not in case['scope']:
             for w in o['words']:
                 if w[0] in case['extforms'] and w[1] in case['scope']:
-                    w[4] = [str(f) for f in wbase.word(w[0]).forms()][1:]
+                    w[4] = [str(f) for f in next(x for x in wbase.words() if x.id == raw(w[0])
+                                                 and x.lexicon().id == w[1]).forms()][1:]
         else:
             for w in o['words']:
                 extra = [f for f in (case.get('extforms') or {}).get(w[0], []) if f not in w[4]]
